@@ -127,7 +127,7 @@ def explore(ctx):
         "rule": "random displaying programs (definitions, display of computed values, lists, strings, newlines, derived forms) "
                 "with an optional injected fault (8 run-time kinds or a syntactically invalid form) at a random position, "
                 "comments and blank lines, string literals that span lines with blanks and tabs before the line break, LF or CR LF "
-                "line ends, with or without final newline, named by an absolute and by a relative path, three in ten importing a library file that lies next to the program; written to a scratch "
+                "line ends, with or without final newline, named by an absolute and by a relative path, three in ten importing a library file that lies next to the program, blanks at line ends and lines of blanks only; written to a scratch "
                 "directory and run through the built binary from ANOTHER working directory: stdout bytes, exit status and "
                 "the diagnostic's location vs the model; stdout vs in-process evaluation of the same text; the same program "
                 "with the other line-end convention and final-newline choice must give the same result; plus files of 4-130 KiB in which a 2-, 3- or 4-byte character "
